@@ -951,6 +951,97 @@ class Module:
         self.out.append(indent(code, 1))
         self.out.append("")
 
+    # -- T11: rich comparisons of a value-with-units class (Scalar) ---------------------------------------------------------
+    def translate_scalar_compare(self, cls: str, kinds: dict[str, str]) -> None:
+        """T11: `__eq__`, `__lt__`, `__le__`, `__gt__`, `__ge__` of a class holding `.value` and `.units`, over the abstract
+        `Model.Units.Scalar` (a value that is a number or a string, and a units string).
+
+        Ordering methods:  `if not isinstance(other, self.__class__): return NotImplemented` (the model's operands are both of the
+        class);  `self.<units check>(other.units)` (translated from its definition: `if self.units != other_units: raise ValueError`);
+        an if / elif / else chain whose tests are `isinstance(self.value, K) and isinstance(other.value, K)` (K from `kinds`), whose
+        branches `return self.value <op> other.value` with the operator OF THAT METHOD, and whose else raises a TypeError.
+        `__eq__`:  `return self.value == other.value and self.units == other.units`."""
+        OPS = {"__lt__": (ast.Lt, "lt"), "__le__": (ast.LtE, "le"), "__gt__": (ast.Gt, "gt"), "__ge__": (ast.GtE, "ge")}
+
+        def fail(msg, node):
+            raise Untranslatable(f"{cls}: {msg}", node, self.path)
+
+        def strip(fn):
+            return [st for st in fn.body if not (isinstance(st, ast.Expr) and isinstance(st.value, ast.Constant))]
+
+        def class_guard(st):
+            return (isinstance(st, ast.If) and not st.orelse and ast.unparse(st.test) == "not isinstance(other, self.__class__)"
+                    and len(st.body) == 1 and isinstance(st.body[0], ast.Return) and ast.unparse(st.body[0].value) == "NotImplemented")
+        # the tuple of numeric classes
+        for n in self.tree.body:
+            if isinstance(n, ast.Assign) and isinstance(n.targets[0], ast.Name) and n.targets[0].id == "_NUMERIC":
+                if {ast.unparse(x) for x in n.value.elts} != {"bool", "int", "float"}:
+                    fail("_NUMERIC is not (bool, int, float)", n)
+                break
+        else:
+            fail("_NUMERIC not found", self.tree)
+        # the units check
+        chk = self.find_func(cls, "_check_units_equal_for_comparison")
+        cb = strip(chk)
+        if not (len(cb) == 1 and isinstance(cb[0], ast.If) and not cb[0].orelse and ast.unparse(cb[0].test) == "self.units != other_units"
+                and len(cb[0].body) == 1 and isinstance(cb[0].body[0], ast.Raise) and ast.unparse(cb[0].body[0].exc.func) == "ValueError"):
+            fail("_check_units_equal_for_comparison: expected `if self.units != other_units: raise ValueError(...)`", chk)
+        self.out.append(f"/-- generated from `{cls}._check_units_equal_for_comparison` -/")
+        self.out.append("@[pygen] def check_units (self_units other_units : Model.Units.Str) : Except PyErr Unit :=")
+        self.out.append("  if self_units ≠ other_units then Except.error PyErr.ValueError else Except.ok ()")
+        self.out.append("")
+        # the error raised by the else branch
+        errfn = self.find_func(None, "_comparing_numeric_and_string_not_permitted")
+        eb = strip(errfn)
+        if not (len(eb) == 1 and isinstance(eb[0], ast.Return) and isinstance(eb[0].value, ast.Call) and ast.unparse(eb[0].value.func) == "TypeError"):
+            fail("_comparing_numeric_and_string_not_permitted: expected `return TypeError(...)`", errfn)
+        for dunder, (opcls, opname) in OPS.items():
+            fn = self.find_func(cls, dunder)
+            b = strip(fn)
+            if len(b) != 3 or not class_guard(b[0]):
+                fail(f"{dunder}: expected class guard, units check, type dispatch", fn)
+            if ast.unparse(b[1]) != "self._check_units_equal_for_comparison(other.units)":
+                fail(f"{dunder}: expected the units check second", b[1])
+            node, branches, final = b[2], [], None
+            while isinstance(node, ast.If):
+                t = node.test
+                ok = (isinstance(t, ast.BoolOp) and isinstance(t.op, ast.And) and len(t.values) == 2
+                      and all(isinstance(v, ast.Call) and ast.unparse(v.func) == "isinstance" and len(v.args) == 2 for v in t.values)
+                      and ast.unparse(t.values[0].args[0]) == "self.value" and ast.unparse(t.values[1].args[0]) == "other.value"
+                      and ast.unparse(t.values[0].args[1]) == ast.unparse(t.values[1].args[1]) and ast.unparse(t.values[0].args[1]) in kinds)
+                if not ok:
+                    fail(f"{dunder}: branch test {ast.unparse(t)[:70]}", t)
+                r = node.body
+                if not (len(r) == 1 and isinstance(r[0], ast.Return) and isinstance(r[0].value, ast.Compare) and len(r[0].value.ops) == 1
+                        and isinstance(r[0].value.ops[0], opcls) and ast.unparse(r[0].value.left) == "self.value"
+                        and ast.unparse(r[0].value.comparators[0]) == "other.value"):
+                    fail(f"{dunder}: branch must `return self.value {dunder} other.value` with this method's operator", node)
+                branches.append(kinds[ast.unparse(t.values[0].args[1])])
+                if len(node.orelse) == 1 and isinstance(node.orelse[0], ast.If):
+                    node = node.orelse[0]
+                else:
+                    final = node.orelse
+                    node = None
+            if not (final and len(final) == 1 and isinstance(final[0], ast.Raise) and isinstance(final[0].exc, ast.Call)
+                    and ast.unparse(final[0].exc.func) == "_comparing_numeric_and_string_not_permitted"):
+                fail(f"{dunder}: the else branch must raise _comparing_numeric_and_string_not_permitted()", fn)
+            code = ""
+            for pred in branches:
+                code += f"if a.value.{pred} = true ∧ b.value.{pred} = true then Except.ok (Model.Units.cmpVal Model.Units.Cmp.{opname} a.value b.value)\n  else "
+            code += "Except.error PyErr.TypeError"
+            self.out.append(f"/-- generated from `{cls}.{dunder}` -/")
+            self.out.append(f"@[pygen] def {opname} (a b : Model.Units.Scalar) : Except PyErr Bool :=")
+            self.out.append(f"  Except.bind (check_units a.units b.units) (fun _ =>\n  {code})")
+            self.out.append("")
+        fn = self.find_func(cls, "__eq__")
+        b = strip(fn)
+        if not (len(b) == 2 and class_guard(b[0]) and isinstance(b[1], ast.Return)
+                and ast.unparse(b[1].value) == "self.value == other.value and self.units == other.units"):
+            fail("__eq__: expected `return self.value == other.value and self.units == other.units`", fn)
+        self.out.append(f"/-- generated from `{cls}.__eq__` -/")
+        self.out.append("@[pygen] def eq (a b : Model.Units.Scalar) : Bool := a.value.eq b.value && a.units == b.units")
+        self.out.append("")
+
     # -- T3: accumulator loops over a sequence of integers ---------------------------------------------------
     def translate_scan_function(self, name: str, lean_name: str, seq_param: str, enum_cls: str | None = None,
                                 helpers: dict[str, str] | None = None) -> None:
